@@ -320,13 +320,36 @@ METHS = {"trf": ["transform"], "clf": ["predict_proba", "predict"], "reg": ["pre
 
 
 # ----------------------------------------------------------------------------- containers
-def build(panel, base, idx=None, keepidx=False):
-    """panel -> nested DataFrame ("N", pd.Series cells) or 3-D array ("A"); idx selects rows by position"""
+LAYOUTS = ("C", "F", "T", "S")
+
+
+def with_layout(arr, layout):
+    """the same numbers in another memory layout: "C" row-major, "F" np.asfortranarray, "T" the transposed view
+    of a (time, variable, instance) array, "S" a non-contiguous slice (every other time point of a wider array)"""
+    if layout == "F":
+        out = np.asfortranarray(arr)
+    elif layout == "T":
+        out = np.ascontiguousarray(arr.transpose(2, 1, 0)).T
+    elif layout == "S":
+        wide = np.full(arr.shape[:2] + (2 * arr.shape[2],), 7.5)
+        wide[:, :, ::2] = arr
+        out = wide[:, :, ::2]
+    else:
+        out = np.ascontiguousarray(arr)
+    assert out.shape == arr.shape and np.array_equal(out, arr)
+    return out
+
+
+def build(panel, base, idx=None, keepidx=False, layout="C"):
+    """panel -> nested DataFrame ("N", pd.Series cells) or 3-D array ("A", in the given memory layout);
+    idx selects rows by position"""
     if base == "A":
         arr = np.array([[list(map(float, s)) for s in inst] for inst in panel], dtype=float)
         if arr.ndim != 3:
             arr = arr.reshape(len(panel), len(panel[0]) if panel else 0, -1)
-        return arr if idx is None else arr[list(idx)]
+        if idx is not None:
+            arr = arr[list(idx)]
+        return with_layout(arr, layout) if arr.size else arr
     ncol = len(panel[0]) if panel else 1
     df = pd.DataFrame({"var_%d" % j: [pd.Series(list(map(float, inst[j]))) for inst in panel] for j in range(ncol)},
                       index=range(len(panel)))
@@ -452,24 +475,25 @@ def meta_real(case):
     import joblib
     ent = registry()[case["est"]]
     base, keep, meth = case["base"], bool(case.get("keepidx")), case["meth"]
+    lay = case.get("layout", "C")                           # memory layout of every 3-D array handed over in this case
     other = "A" if base == "N" else "N"
     xa, xf = case["xa"], case["xf"]
     y = _labels(case)
     with joblib.parallel_backend("threading"):
         try:
             est = ent["mk"](case["p"])
-            est.fit(build(xf, case.get("fitbase", base)), y)
+            est.fit(build(xf, case.get("fitbase", base), layout=lay), y)
         except Exception as e:
             return "fit=" + canon_err(e)
         apply = getattr(est, meth)
         parts = ["fit=ok"]
-        b = _try_rows(lambda: apply(build(xa, base)))
+        b = _try_rows(lambda: apply(build(xa, base, layout=lay)))
         parts.append("b=" + ("ok" if not b.startswith("E:") else b))
         parts.append("B=" + (b if not b.startswith("E:") else "_"))
         ties = []
         if meth == "predict" and _tie_by_rng(ent) and not b.startswith("E:"):
             try:
-                P = np.asarray(est.predict_proba(build(xa, base)))
+                P = np.asarray(est.predict_proba(build(xa, base, layout=lay)))
                 ties = [i for i in range(P.shape[0]) if int((P[i] == P[i].max()).sum()) > 1]
             except Exception:
                 ties = []
@@ -482,14 +506,14 @@ def meta_real(case):
                 parts.append("w=-")
         for k, v in enumerate(case["vars"]):
             if v[0] == "sel":
-                r = _try_rows(lambda: apply(build(xa, base, idx=v[1], keepidx=keep)))
+                r = _try_rows(lambda: apply(build(xa, base, idx=v[1], keepidx=keep, layout=lay)))
             elif v[0] == "cont":
-                r = _try_rows(lambda: apply(build(xa, other)))
+                r = _try_rows(lambda: apply(build(xa, other, layout=lay)))
             elif v[0] == "contfit":
                 def refit():
                     e2 = ent["mk"](case["p"])
-                    e2.fit(build(xf, other), y)
-                    return getattr(e2, meth)(build(xa, base))
+                    e2.fit(build(xf, other, layout=lay), y)
+                    return getattr(e2, meth)(build(xa, base, layout=lay))
                 r = _try_rows(refit)
             else:
                 raise ValueError(v)
@@ -1433,14 +1457,20 @@ def gen_instance(rng, c, L, cls, ragged=False):
     return inst
 
 
-def gen_meta(rng, key, tier, malformed=None, p=None, ragged=None):
+def gen_meta(rng, key, tier, malformed=None, p=None, ragged=None, layout=None):
     ent = registry()[key]
     p = rng.choice(ent["params"]) if p is None else p
     meth = rng.choice(METHS[ent["kind"]])
+    if layout is None:
+        layout = rng.choice(["C", "C", "F", "T", "S"])
     c = 2 if ent["mv"] else (1 if ent["uni"] else rng.choice([1, 1, 2]))
+    if layout != "C" and not ent["uni"]:
+        c = rng.choice([2, 2, 3])           # memory layouts differ from "C" only with >= 2 variables or instances
     L = rng.choice([ent["minL"], ent["minL"] + 4, 20, 24]) if ent["minL"] <= 20 else ent["minL"]
     L = max(L, ent["minL"])
     ragged = (ent["ragged"] and rng.random() < 0.35) if ragged is None else (ragged and ent["ragged"])
+    if ragged:
+        layout = "C"                                        # ragged panels cannot be 3-D arrays
     nf = rng.choice([8, 10]) if not ent["slow"] else 8
     ycls = [k % 2 for k in range(nf)]
     rng.shuffle(ycls)
@@ -1484,7 +1514,7 @@ def gen_meta(rng, key, tier, malformed=None, p=None, ragged=None):
         if ent["refit"]:
             vs.append(["contfit"])
     case = {"op": "meta", "est": key, "p": p, "meth": meth, "xf": xf, "y": y, "xa": xa, "base": base,
-            "keepidx": base == "N" and rng.random() < 0.5, "vars": vs, "valid": True}
+            "keepidx": base == "N" and rng.random() < 0.5, "vars": vs, "valid": True, "layout": layout}
     if ent["kind"] == "clf" and rng.random() < 0.3:
         case["ykind"] = "str"
     if malformed == "empty":
@@ -1511,7 +1541,10 @@ def gen_cases(tier, rng):
         ps = reg[k]["params"]
         for r in range(reps):
             # parameter sets are cycled (seed-rotated), ragged-capable estimators get a ragged panel every other case
-            cases.append(gen_meta(rng, k, tier, p=ps[(rot + r) % len(ps)], ragged=(r % 2 == 0)))
+            # and every estimator sees each memory layout of the 3-D container (seed-rotated)
+            rag = (r % 2 == 0) and reg[k]["ragged"]
+            cases.append(gen_meta(rng, k, tier, p=ps[(rot + r) % len(ps)], ragged=rag,
+                                  layout="C" if rag else LAYOUTS[1 + (rot + r) % 3] if r % 4 != 3 else "C"))
     for k in slow:
         for _ in range(2 if tier == "quick" else 16):
             cases.append(gen_meta(rng, k, tier))
@@ -1594,6 +1627,7 @@ def features(case, out):
     if case["op"] == "ens":
         return ["ens:" + case["est"]]
     fs = ["est:" + case["est"], "meth:" + case["meth"], "base:" + case["base"], "n_apply:%d" % len(case["xa"]),
+          "layout:" + case.get("layout", "C"), "n_columns:%d" % (len(case["xa"][0]) if case["xa"] else 0),
           "batch:" + (f.get("b") or f.get("fit", "?"))]
     if not is_rect(case["xa"]):
         fs.append("ragged")
